@@ -48,6 +48,8 @@ type pspec struct {
 	ProvidesOn map[string][]string `json:"provides_on,omitempty"`
 	// the control section carries executable scripts (.pre-install, .post-install, .trigger) whose own mtime is not the build's epoch
 	Scripts bool `json:"scripts,omitempty"`
+	// the origin recorded for the package when it is not its own name (a sub-package: foo-doc of origin foo)
+	Origin string `json:"origin,omitempty"`
 }
 
 type scenario struct {
@@ -87,7 +89,11 @@ func materialise(sc scenario, key *synthrepo.Key, root string) (*world, error) {
 			if o, ok := p.ProvidesOn[a]; ok {
 				prov = o
 			}
-			sp := &synthrepo.Pkg{Name: p.Name, Version: p.Version, Arch: a, Origin: p.Name, Deps: p.Deps, Provides: prov,
+			origin := p.Name
+			if p.Origin != "" {
+				origin = p.Origin
+			}
+			sp := &synthrepo.Pkg{Name: p.Name, Version: p.Version, Arch: a, Origin: origin, Deps: p.Deps, Provides: prov,
 				Description: "synthetic " + p.Name, License: "MIT", Files: filesFor(p.Name, p.Version)}
 			if p.Scripts {
 				mt := time.Unix(1662926906, 0)
@@ -920,7 +926,12 @@ func baseCase(w *gal.Writer, key *synthrepo.Key) {
 		{Name: "pretend-baselayout", Version: "1.0.0-r0", Arch: arch, Origin: "pretend-baselayout", Description: "rebuilt", License: "MIT",
 			Files: filesFor("pretend-baselayout", "1.0.0-r0")},
 		{Name: "replayout", Version: "1.0.0-r0", Arch: arch, Origin: "replayout", Description: "synthetic replayout", License: "MIT",
-			Deps: []string{"pretend-baselayout"}, Files: filesFor("replayout", "1.0.0-r0")},
+			Deps: []string{"pretend-baselayout", "replayout-doc"}, Files: filesFor("replayout", "1.0.0-r0")},
+		// a sub-package of origin replayout, installed before replayout itself; and a package whose origin is the name of a base-image package
+		{Name: "replayout-doc", Version: "1.0.0-r0", Arch: arch, Origin: "replayout", Description: "synthetic sub-package", License: "MIT",
+			Deps: []string{"layout-tool"}, Files: filesFor("replayout-doc", "1.0.0-r0")},
+		{Name: "layout-tool", Version: "1.0.0-r0", Arch: arch, Origin: "pretend-baselayout", Description: "origin = name of a base package", License: "MIT",
+			Files: filesFor("layout-tool", "1.0.0-r0")},
 	}
 	repo, err := synthrepo.Write(filepath.Join(root, "packages"), key, pkgs)
 	if err != nil {
@@ -1108,6 +1119,12 @@ func corpusScenarios() []scenario {
 		// locked build must be the unlocked build's. The install orders agree here (a=.. sorts first and pulls b), so C09-F5 stays out of it
 		{Name: "control-scripts", Archs: both(), World: []string{"a"}, Pkgs: []pspec{
 			{Name: "a", Version: "1.0-r0", Archs: both(), Deps: []string{"b"}, Scripts: true}, {Name: "b", Version: "2.0-r0", Archs: both(), Scripts: true}}},
+		// origins that are not the package's own name: sub-packages foo-doc / foo-dev of origin foo are installed BEFORE foo, and tool's
+		// origin is the NAME of another package (foo-dev). The installer skips a package only when a package of that NAME is installed
+		{Name: "sub-packages-share-an-origin", Archs: both(), World: []string{"foo", "tool"}, Pkgs: []pspec{
+			{Name: "foo", Version: "1.0-r0", Archs: both(), Deps: []string{"foo-doc", "foo-dev"}},
+			{Name: "foo-doc", Version: "1.0-r0", Archs: both(), Origin: "foo"}, {Name: "foo-dev", Version: "1.0-r0", Archs: both(), Origin: "foo"},
+			{Name: "tool", Version: "2.0-r0", Archs: both(), Origin: "foo-dev"}}},
 		{Name: "dependency-missing-on-one-arch", Archs: both(), World: []string{"a"}, Pkgs: []pspec{
 			{Name: "a", Version: "1.0-r0", Archs: both(), Deps: []string{"b"}}, {Name: "b", Version: "1.0-r0", Archs: []string{X}}}},
 		// the repositories and the key come through build options: the locked configurations are re-resolved on their own, so they must
@@ -1261,6 +1278,17 @@ func genScenario(r *gal.Rand, i int) scenario {
 			sc.Pkgs[k].Deps = append(sc.Pkgs[k].Deps, c)
 		}
 	}
+	if r2.Chance(1, 3) {
+		// a sub-package whose origin is another package's name: n<k>-doc of origin n<k>, needed by n<k> (every version); the only
+		// package of its name, so the origin preference of comparePackages has nothing to choose between
+		k := r2.Intn(len(names))
+		for j := range sc.Pkgs {
+			if sc.Pkgs[j].Name == names[k] {
+				sc.Pkgs[j].Deps = append(sc.Pkgs[j].Deps, names[k]+"-doc")
+			}
+		}
+		sc.Pkgs = append(sc.Pkgs, pspec{Name: names[k] + "-doc", Version: "1.0-r0", Archs: archs, Origin: names[k]})
+	}
 	if hasEdge && r2.Chance(1, 3) {
 		// e2 lives in the tagged repository and provides the virtual "ev"; e3 (untagged) needs "ev"; both may be requested
 		sc.Pkgs = append(sc.Pkgs, pspec{Name: "e2", Version: "1.0-r0", Archs: archs, Edge: true, Provides: []string{"ev=1"}},
@@ -1340,7 +1368,7 @@ func cliStage(dir string, seed uint64, tier string) error {
 		"basic-dep": {X}, "virtual-by-provided-name": {Y}, "pinned-with-dependency-in-tagged-repo": {X}, "diamond": {X},
 		"newer-version-on-one-arch": {X},
 		"compatible-architectures-x86": {X, "x86"}, "compatible-architectures-arm": {Y}, "riscv64-only": {Zr},
-		"install-order-of-lock-list-differs": {X}, "control-scripts": {X},
+		"install-order-of-lock-list-differs": {X}, "control-scripts": {X}, "sub-packages-share-an-origin": {X},
 	}
 	for _, sc := range cs {
 		sc := sc
